@@ -526,6 +526,56 @@ Qed.
 
 End Part.
 
+(* ------------------------------------------------------------------ "lonely" = no strong connection *)
+Lemma two_in_length {X} (a b : X) l : In a l -> In b l -> a <> b -> 2 <= length l.
+Proof.
+  intros Ha Hb Hne. destruct l as [|x l]; [destruct Ha|]. destruct l as [|y t]; [|simpl; lia].
+  exfalso. simpl in Ha, Hb. destruct Ha as [Ha|[]]. destruct Hb as [Hb|[]]. congruence.
+Qed.
+
+Lemma nodup_all_eq (i : nat) l : NoDup l -> In i l -> (forall c, In c l -> c = i) -> l = [i].
+Proof.
+  intros Hn Hi Hall. destruct l as [|x [|y t]]; simpl in *.
+  - destruct Hi.
+  - destruct Hi as [->|[]]. reflexivity.
+  - exfalso. rewrite (Hall x (or_introl eq_refl)), (Hall y (or_intror (or_introl eq_refl))) in Hn.
+    inversion Hn; subst. apply H1. left. reflexivity.
+Qed.
+
+(* "lonely" (removed before the rounds: wl + wr == 1) means exactly: the row of the strength matrix holds nothing but the
+   diagonal -- the unknown has no strong connection *)
+Lemma lonely_spec parts G i : NoDup (grow G i) -> In i (grow G i) ->
+  (lonely parts G i = false <-> exists c, In c (grow G i) /\ c <> i).
+Proof.
+  intros Hnd Hi.
+  assert (Hicl : In i (cl parts G i)).
+  { unfold cl. apply filter_In. split; [exact Hi|]. unfold same_rank. apply Nat.eqb_refl. }
+  split.
+  - intros Hl. destruct (existsb (fun c => negb (Nat.eqb c i)) (grow G i)) eqn:E.
+    + apply existsb_exists in E. destruct E as [c [Hc Hne]]. exists c. split; [exact Hc|].
+      apply negb_true_iff in Hne. apply Nat.eqb_neq in Hne. exact Hne.
+    + exfalso. assert (Hall : forall c, In c (grow G i) -> c = i).
+      { intros c Hc. destruct (Nat.eq_dec c i) as [->|Hne]; [reflexivity|].
+        assert (existsb (fun c => negb (Nat.eqb c i)) (grow G i) = true).
+        { apply existsb_exists. exists c. split; [exact Hc|]. apply negb_true_iff. apply Nat.eqb_neq. exact Hne. }
+        congruence. }
+      pose proof (nodup_all_eq i _ Hnd Hi Hall) as Hg.
+      unfold lonely, sq_rem, cl, cr in Hl. rewrite Hg in Hl. simpl in Hl.
+      unfold same_rank in Hl. rewrite Nat.eqb_refl in Hl. simpl in Hl.
+      unfold cr in Hl. rewrite Hg in Hl. simpl in Hl. unfold same_rank in Hl. rewrite Nat.eqb_refl in Hl. simpl in Hl.
+      discriminate.
+  - intros [c [Hc Hne]]. unfold lonely. apply Nat.eqb_neq.
+    destruct (same_rank parts i c) eqn:E.
+    + assert (In c (cl parts G i)) by (unfold cl; apply filter_In; split; assumption).
+      pose proof (two_in_length _ _ _ Hicl H (fun e => Hne (eq_sym e))). lia.
+    + assert (Hcr : In c (cr parts G i)) by (unfold cr; apply filter_In; split; [assumption | rewrite E; reflexivity]).
+      assert (Hsq : In c (sq_rem parts G i)).
+      { unfold sq_rem. apply dedup_In. apply in_app_iff. left. apply in_flat_map. exists i. split; assumption. }
+      assert (1 <= length (cl parts G i)) by (destruct (cl parts G i); [destruct Hicl | simpl; lia]).
+      assert (1 <= length (sq_rem parts G i)) by (destruct (sq_rem parts G i); [destruct Hsq | simpl; lia]).
+      lia.
+Qed.
+
 (* ------------------------------------------------------------------ the aggregation depends on the partition *)
 (* rank-count independence does NOT hold (and the property does not ask for it): on the path 0-1-2-3 one rank builds the
    aggregates {0,1} {2,3}, the two ranks [2;2] build the single aggregate {0,1,2,3} (the higher rank selects first and
